@@ -108,7 +108,7 @@ def run(ctx, selftest=False):
                 "(call sequence with paths, batching and returned rows); trivial = one-row library")
     ctx.assumptions = ["TLC/SANY", "HDF5 round trip of float64 is exact (bound separately by C12)",
                        "reference value = row evaluated alone on a fresh helper in memory"]
-    ctx.model_check("PoolMC", "MC_Pool.cfg", coverage=True)
+    ctx.model_check("PoolMC", "MC_Pool.cfg" if quick else "MC_Pool_thorough.cfg", coverage=True)
     rnd = random.Random(ctx.seed * 69069 + 5)
     cases = gen_cases(ctx, rnd, 260 if quick else 2500, 120 if quick else 1500)
     traces = core.pmap(run_case, cases, chunksize=4)
